@@ -57,7 +57,7 @@ CHECKS = {
     "SMOKE": {"runs": [{"entry": M + ".HarnessL1Smoke", "pkgs": CORE, "must_reach": ["smoke-end"]}]},
     "C01": {
         "claim": {
-            "text": "bounded model checking of the real Config/compose/overlay/deep-copy/Pointerify code over a corpus of 7 config struct types plus a generated family (every struct of <=2, thorough 3, fields over a 12-kind alphabet in every order, built with reflect.StructOf and stacked through the real compose): every set/unset pattern of every leaf in 1-2 (thorough 3) layers is explored and every leaf value is symbolic, so the solver proves 'last source that set it wins, else default' against an independent reference model for all values",
+            "text": "bounded model checking of the real Config/compose/overlay/deep-copy/Pointerify code over a corpus of 8 config struct types plus a generated family (every struct of <=2, thorough 3, fields over a 12-kind alphabet in every order, built with reflect.StructOf and stacked through the real compose): every set/unset pattern of every leaf in 1-2 (thorough 3) layers is explored and every leaf value is symbolic, so the solver proves 'last source that set it wins, else default' against an independent reference model for all values",
             "note": "types are a hand-written corpus (enumerated, not solved); layers are built by field name through the pointerified type like decoders do; reflect is a model validated natively on sampled paths; interface-typed config fields are outside",
             "design_ref": "DESIGN.md §4 C01",
         },
@@ -66,7 +66,7 @@ CHECKS = {
                  seq("HarnessC01T7", ["c01-end"]), seq("HarnessC01T8", ["c01-end"], ["quick"]), seq("HarnessC01T8L2", ["c01-end"], ["thorough"]), conc("HarnessC02History2", ["c02-hist-end"]), seq("HarnessC01Gen2", ["c01-gen-end"]),
                  seq("HarnessC01Gen2L2", ["c01-gen-end"], ["thorough"]), seq("HarnessC01Gen3", ["c01-gen-end"], ["thorough"]), seq("HarnessC01T3", ["c01-end"], ["thorough"]), seq("HarnessC01T4", ["c01-end"], ["thorough"]),
                  seq("HarnessC01T2L3", ["c01-end"], ["thorough"]), seq("HarnessC01T7L3", ["c01-end"], ["thorough"])],
-        "bounds": {"quick": "7 types (scalars/durations, skipped fields in every position, nested+pointer+embedded structs, slices/maps/arrays, user pointers, text-unmarshalable value+pointer, deep nesting); 2 layers (1 for the two biggest types); slices len<=2, maps <=1 entry; all scalar values; generated family: all 12+144 types of 1-2 fields over {int8,string,[]int16,map,*int,struct,*struct,[2]uint8,dials:\"-\",chan,func,text-unmarshalable}, 1 layer",
+        "bounds": {"quick": "8 types (scalars/durations, skipped fields in every position, nested+pointer+embedded structs, slices/maps/arrays, user pointers incl. two leaves aliasing one variable in the defaults, text-unmarshalable value+pointer, deep nesting, pointer-bearing arrays in slices / struct map keys holding pointers / pointer to an all-nilable struct); 2 layers (1 for the two biggest types); slices len<=2, maps <=1 entry; all scalar values; generated family: all 12+144 types of 1-2 fields over {int8,string,[]int16,map,*int,struct,*struct,[2]uint8,dials:\"-\",chan,func,text-unmarshalable}, 1 layer",
                    "thorough": "same corpus, 2 layers everywhere, 3 layers on the small types; generated family: all 1728 three-field types (1 layer), all 144 two-field types (2 layers)"},
         "outside": "other struct types; more layers; longer slices/maps; interface-typed fields; floats/complex are drawn from 2-3 concrete values",
         "assumptions": REFLECT_ASSUME,
@@ -80,23 +80,23 @@ CHECKS = {
         "runs": [conc("HarnessC02History2", ["c02-hist-end"]), seq("HarnessC01T4L1", ["c01-end"], ["quick"]), seq("HarnessC01T3L1", ["c01-end"], ["quick"]),
                  seq("HarnessC01T6", ["c01-end"]), seq("HarnessC01T5", ["c01-end"]), seq("HarnessC01T8", ["c01-end"], ["quick"]), seq("HarnessC01T8L2", ["c01-end"], ["thorough"]), conc("HarnessC02History3", ["c02-hist-end"], ["thorough"]),
                  seq("HarnessC01T4", ["c01-end"], ["thorough"]), seq("HarnessC01T3", ["c01-end"], ["thorough"])],
-        "bounds": {"quick": "corpus types T3,T4,T6 with 1-2 layers; 2 re-stacks with symbolic set/unset of a nested-pointer leaf and a scalar",
+        "bounds": {"quick": "corpus types T3,T4,T5,T6,T8 with 1-2 layers (identity sets include map keys); 2 re-stacks with symbolic set/unset of a nested-pointer leaf and a scalar",
                    "thorough": "2 layers on T3/T4; 3 re-stacks"},
         "outside": "other types; longer histories",
         "assumptions": REFLECT_ASSUME,
     },
     "C03": {
         "claim": {
-            "text": "bounded model checking of the real deep copier on every object graph over 6 recursive node families with <=2 (thorough 3) nodes: every edge set (nil, self loops, cycles, diamonds, shared maps, references in slices/arrays/maps/interfaces, typed nil in interface) is explored; result deep-equal, identity relation of pointer/map references isomorphic, all references fresh, recursion bounded",
-            "note": "Config itself cannot be driven with recursive config types: ptrify.Pointerify does not terminate on them (open known finding, replayed natively as a stack overflow); the graph properties are checked on realDeepCopy, which Config, compose and overlay go through",
+            "text": "bounded model checking of the real deep copier on every object graph over 7 recursive node families with <=2 (thorough 3) nodes, and of the whole public path (Config, View) on an 8th family that is recursive only through slices/maps/arrays with back-edges to the root config struct: every edge set (nil, self loops, cycles, diamonds, shared maps, references in slices/arrays/maps/interfaces, typed nil in interface) is explored; result deep-equal, identity relation of pointer/map references isomorphic, all references fresh, recursion bounded",
+            "note": "Config cannot be driven with config types that are recursive through a direct pointer or struct field: ptrify.Pointerify does not terminate on them (open known finding, replayed natively as a stack overflow); the graph properties are checked on realDeepCopy, which Config, compose and overlay go through",
             "design_ref": "DESIGN.md §4 C03",
         },
         "runs": [seq("HarnessC03A2", ["c03-end"]), seq("HarnessC03B2", ["c03-end"]), seq("HarnessC03C2", ["c03-end"]),
                  seq("HarnessC03D2", ["c03-end"], native_timeout=120), seq("HarnessC03ConfigRecursive", [], native_timeout=120),
                  seq("HarnessC03E", ["c03-end"]), seq("HarnessC03F2", ["c03-end"]), seq("HarnessC03G2", ["c03-end"], ["quick"]), seq("HarnessC03G2Full", ["c03-end"], ["thorough"]), seq("HarnessC03H2", ["c03h-end"]),
                  seq("HarnessC03A3", ["c03-end"], ["thorough"])],
-        "bounds": {"quick": "families A (pointer fields), B (maps), C (slices/arrays), D (interfaces), E (maps of maps), F (refs after unexported fields); N<=2 nodes; call depth bound 400 (unwinding assertion)",
-                   "thorough": "plus family A with 3 nodes"},
+        "bounds": {"quick": "families A (pointer fields), B (maps), C (slices/arrays), D (interfaces), E (maps of maps), F (refs after unexported fields), G (arrays of arrays, slices of arrays, maps of arrays; reduced edge set in quick), H (through Config: Kids []*T, Named map[string]*T, Pair [1]*T with root back-edges); N<=2 nodes; call depth bound 400 (unwinding assertion)",
+                   "thorough": "plus family A with 3 nodes and the full edge set of family G"},
         "outside": "more nodes; other node shapes; re-stacking of recursive types (blocked by the Pointerify finding)",
         "assumptions": REFLECT_ASSUME,
     },
@@ -109,7 +109,7 @@ CHECKS = {
         "runs": [conc("HarnessC04Quick", ["c04-end", "c04-config-rejected"]), conc("HarnessC04NonBlocking", ["c04-end"]),
                  {"entry": M + "/sourcewrap.HarnessC04Wrapped", "pkgs": SW, "must_reach": ["c04-wrapped-end"], "instrument": [M, M + "/sourcewrap"], "validate": 0},
                  conc("HarnessC04Thorough", ["c04-end"], ["thorough"])],
-        "bounds": {"quick": "1 watching source, 2 updates (blocking and plain), reader with 2 reads; all schedules", "thorough": "3 updates"},
+        "bounds": {"quick": "1 watching source, 2 updates (blocking and plain), reader with 2 reads; 2 blocking reports of arbitrary validity through a transforming source; all schedules", "thorough": "3 updates"},
         "outside": "more updates/sources; callback queue overflow (64) is not reached",
         "assumptions": CONC_ASSUME,
     },
@@ -121,7 +121,7 @@ CHECKS = {
         },
         "runs": [conc("HarnessC05Quick", ["c05-end"]), conc("HarnessC05Seq", ["c05-end"]),
                  conc("HarnessC05Thorough", ["c05-end"], ["thorough"], maxpaths=1000000, timeout=3000), conc("HarnessC05Three", ["c05-end"], ["thorough"], maxpaths=1000000, timeout=3000)],
-        "bounds": {"quick": "2 sources; 1+1 reports with 2 concurrent reads, 2+1 reports without reader; all values symbolic; all schedules",
+        "bounds": {"quick": "2 sources; 1+1 reports with 2 concurrent reads, 2+1 reports without reader; a nested pointer section set or not by the first update; all values symbolic; all schedules",
                    "thorough": "2+2 reports with 2 reads; 3+1 reports with 1 read"},
         "outside": "longer histories; 2^64 serial wrap",
         "assumptions": CONC_ASSUME,
@@ -173,37 +173,41 @@ CHECKS = {
         },
         "runs": [conc("HarnessC09Quick", ["c09-end"]), conc("HarnessC09NoWatcher", ["c09-end"]), conc("HarnessC09Race", ["c09-race-end"]),
                  conc("HarnessC09Thorough", ["c09-end"], ["thorough"])],
-        "bounds": {"quick": "3 events; 4 option combinations; initial validity symbolic", "thorough": "4 events"},
+        "bounds": {"quick": "3 events; 4 option combinations; initial validity symbolic; Verify fails for an external reason during EnableVerification calls that are documented not to verify", "thorough": "4 events"},
         "outside": "longer event sequences",
         "assumptions": CONC_ASSUME,
     },
     "C11": {
         "claim": {'text': 'bounded model checking of the real environment source (alias, flatten, tag-reformat, tag-copy, string-cast manglers, structtag, caseconversion, parse): every subset of the 12 variables of a config type with nested, pointer, embedded, tagged, dialsenv-named, slice and duration leaves, integer values symbolic over all of int64/uint64: a leaf is set exactly when its documented variable is present, with the parsed value, decoy names are never read, out-of-range values are errors, and a second Value call forgets removed variables', 'note': 'os.LookupEnv is an intrinsic reading the harness table (natively os.Setenv); expected variable names are written by hand from the documented rule (embedded structs contribute no name component)', 'design_ref': 'DESIGN.md §4 C11'},
-        "bounds": {'quick': '1 type, 12 variables, all subsets, no prefix', 'thorough': 'plus prefix APP'},
+        "bounds": {'quick': '1 type, 12 variables, all subsets, no prefix; a second type with initialism/plural-initialism names, decoys, and a map variable with bare keys (1 symbolic payload byte)', 'thorough': 'plus prefix APP'},
         "outside": 'other types; quoting-heavy string values (C15 covers the parsers)',
         "assumptions": REFLECT_ASSUME,
         "runs": [
             {"entry": M + "/sources/env.HarnessC11NoPrefix", "pkgs": ENVP, "must_reach": ["c11-end", "c11-error"]},
             {"entry": M + "/sources/env.HarnessC11Names", "pkgs": ENVP, "must_reach": ["c11-names-end"]},
+            {"entry": M + "/sources/env.HarnessC11Gen2", "pkgs": ENVP, "must_reach": ["c11-gen-end", "c11-gen-error"]},
+            {"entry": M + "/sources/env.HarnessC11Gen3", "pkgs": ENVP, "must_reach": ["c11-gen-end", "c11-gen-error"], "tiers": ["thorough"]},
             {"entry": M + "/sources/env.HarnessC11Prefix", "pkgs": ENVP, "must_reach": ["c11-end", "c11-error"], "tiers": ["thorough"]},
         ],
     },
     "C12": {
         "claim": {'text': "bounded model checking of the real standard-library flag source with the real flag package interpreted from source: advertised defaults equal the template's (symbolic) values, exactly the flags on the command line set their leaves (every subset of 8 scalar flags, every value, every template default), out-of-range values are errors, repeated slice/map flags accumulate, float32 overflow is an error", 'note': 'standard-library half only: the pflag source (spf13/pflag, encoding/csv) is outside; flag usage printing is stubbed; float flags use concrete probes', 'design_ref': 'DESIGN.md §4 C12'},
-        "bounds": {'quick': 'scalar flags: all subsets x all values; collection flags: absent/once/twice', 'thorough': 'full product of both'},
-        "outside": 'pflag; custom NameConfig; time/complex/text-unmarshaler flags',
+        "bounds": {'quick': 'scalar flags: all subsets x all values; collection flags: absent/once/twice; 2-level nesting, hand-built Set with a pre-registered flag and no template (10 flags, all subsets, complex and text-unmarshaler leaves)', 'thorough': 'full product of both'},
+        "outside": 'pflag; custom NameConfig; time flags',
         "assumptions": REFLECT_ASSUME,
         "runs": [
             {"entry": M + "/sources/flag.HarnessC12Scalars", "pkgs": FLAGP, "must_reach": ["c12-end", "c12-error"]},
             {"entry": M + "/sources/flag.HarnessC12Collections", "pkgs": FLAGP, "must_reach": ["c12-end", "c12-error"]},
             {"entry": M + "/sources/flag.HarnessC12Nested", "pkgs": FLAGP, "must_reach": ["c12-nested-end", "c12-nested-error"]},
+            {"entry": M + "/sources/flag.HarnessC12Gen2", "pkgs": FLAGP, "must_reach": ["c12-gen-end", "c12-gen-error"]},
+            {"entry": M + "/sources/flag.HarnessC12Gen3", "pkgs": FLAGP, "must_reach": ["c12-gen-end", "c12-gen-error"], "tiers": ["thorough"]},
             {"entry": M + "/sources/flag.HarnessC12All", "pkgs": FLAGP, "must_reach": ["c12-end", "c12-error"], "tiers": ["thorough"]},
         ],
     },
     "C18": {
         "claim": {'text': 'bounded model checking of the real ez entry point with the real Blank, environment source, transforming decoder and dials core under all interleavings: config path from default/env/flag/none, leaf A from every subset of {file, env, flag}, leaf B from {file, flag}, invalid-by-file / invalid-by-flag / valid-only-with-file, failing file source, watch on/off: first view = defaults<file<env<flags, Verify only ever sees the fully stacked config, its failure is the returned error, Events and global callbacks stay silent, a later file change re-stacks under the same precedence', 'note': 'ez.fileSource is stubbed symbolically by a source that hands the real (alias/set-slice wrapped) decoder chain an empty reader; natively the real file source reads a temp file; params.FlagSource is a harness source (the real flag source is C12); the harness decoder ignores the bytes', 'design_ref': 'DESIGN.md §4 C18'},
-        "bounds": {'quick': '2 leaves, 4 path sources, 3 validity modes, file error, watch and no-watch; all schedules', 'thorough': 'same'},
-        "outside": 'the four real file formats (C13); real flag parsing inside ez',
+        "bounds": {'quick': '2 leaves, 4 path sources, 3 validity modes, file error, watch and no-watch; file keys matched by re-cased dials tag with FileFieldNameEncoder set: 2 aliased leaves x {neither, primary, alias, both}, environment on top; all schedules', 'thorough': 'same'},
+        "outside": 'the four real file formats (C13); flags registered on flag.CommandLine by an earlier ez call',
         "assumptions": CONC_ASSUME,
         "runs": [
             {"entry": M + "/ez.HarnessC18NoWatch", "pkgs": EZP, "must_reach": ["c18-end", "c18-verify-error", "c18-file-error"], "instrument": [M, M + "/sourcewrap", M + "/ez"], "validate": 0},
@@ -213,7 +217,7 @@ CHECKS = {
     },
     "C10": {
         "claim": {'text': 'bounded model checking of the real transformer and manglers: translate, write a symbolic subset of the translated fields, reverse: set-to-slice at three depths (nil/empty/elements), flatten (every subset of 9 flattened leaves incl. nested, pointer-nested, embedded, trailing), and five mangler lists (anonymous-flatten, text-unmarshaler, alias+set-slice, and two combinations): result has exactly the original type, every original leaf holds what was written to its counterpart, everything else is unset', 'note': 'expected translated field names are written by hand in the harness; the alias, tag-copy, tag-reformat, string-cast manglers are exercised in their shipped chains by C11/C12/C14/C20; type substitution (durations for JSON/Cue) is not covered', 'design_ref': 'DESIGN.md §4 C10'},
-        "bounds": {'quick': '1 config type with 9 fields (scalars, set, nested, pointer-nested, embedded, text-unmarshalable, duration, slice); all subsets of written fields; 7 mangler lists', 'thorough': 'same'},
+        "bounds": {'quick': '1 config type with 9 fields (scalars, set, nested, pointer-nested, embedded, text-unmarshalable, duration, slice); all subsets of written fields; 7 mangler lists; a second type with two levels of embedding, a nested struct and slices of structs (nil/empty/1 element) inside and outside the embedded struct, 4 mangler lists', 'thorough': 'same'},
         "outside": 'other config types; SingleTypeSubstitutionMangler; random sub-chains beyond the listed ones',
         "assumptions": REFLECT_ASSUME,
         "runs": [
@@ -221,12 +225,14 @@ CHECKS = {
             {"entry": M + "/transform.HarnessC10Flatten", "pkgs": TFP, "must_reach": ["c10-flatten-end"]},
             {"entry": M + "/transform.HarnessC10Chains", "pkgs": TFP, "must_reach": ["c10-chains-end"]},
             {"entry": M + "/transform.HarnessC10Embedded", "pkgs": TFP, "must_reach": ["c10-embedded-end"]},
+            {"entry": M + "/transform.HarnessC10Gen2", "pkgs": TFP, "must_reach": ["c10-gen-end"]},
+            {"entry": M + "/transform.HarnessC10Gen3", "pkgs": TFP, "must_reach": ["c10-gen-end"], "tiers": ["thorough"]},
         ],
     },
     "C14": {
         "claim": {'text': 'bounded model checking of aliases through the real environment source: 5 aliased fields (top-level string, nested leaf, slice, struct-level alias on a pointer struct, dialsenv/dialsenvalias) x all four neither/primary/alias/both patterns (1024 combinations) plus an unaliased field: either name sets the field, neither leaves it unset, both is an error, bare inner names are never read', 'note': 'environment source only; the flag sources use the same AliasMangler (registration chain covered by C12 without alias tags); file decoders are outside (C13)', 'design_ref': 'DESIGN.md §4 C14'},
-        "bounds": {'quick': '1 type, 5 aliased fields at depth 0-1, all pattern combinations', 'thorough': 'same'},
-        "outside": 'flag/pflag sources with alias tags; alias-wrapped file decoders; the both-names error text is checked natively only',
+        "bounds": {'quick': '1 type, 5 aliased fields at depth 0-1, all pattern combinations; 3 aliased fields whose primary name is implicit; the ez file chain with a key-matching decoder (2 aliased leaves x 4 patterns)', 'thorough': 'same'},
+        "outside": 'flag/pflag sources with alias tags; the real file decoders; the both-names error text is checked natively only',
         "assumptions": REFLECT_ASSUME,
         "runs": [
             {"entry": M + "/sources/env.HarnessC14Env", "pkgs": ENVP + ["sort"], "must_reach": ["c14-end", "c14-both-error"]},
@@ -275,7 +281,7 @@ CHECKS = {
             {"entry": CC + ".HarnessC16DecodeThorough", "pkgs": LIBS + ["go/token"], "must_reach": ["c16-decode-end"], "loopcap": 300, "tiers": ["thorough"], "workers": 16},
             {"entry": CC + ".HarnessC16EncodeThorough", "pkgs": LIBS + ["go/token"], "must_reach": ["c16-encode-end"], "loopcap": 300, "tiers": ["thorough"]},
         ],
-        "bounds": {"quick": "all byte strings of length <=2; word lists of <=2 words x <=1 byte; loop header visits <=300 per frame, call depth <=400",
+        "bounds": {"quick": "all byte strings of length <=2; word lists of <=2 words x <=1 byte; 4 env config types of named scalars / named collections / collections of named strings, bools, floats / user pointers (all subsets of variables); 1 flag config type of user-declared pointer leaves (nil and set template); loop header visits <=300 per frame, call depth <=400",
                    "thorough": "all byte strings of length <=3; words of <=2 bytes"},
         "outside": "longer inputs; float/complex text (strconv.ParseFloat on symbolic bytes is not explored); unicode predicates above U+00FF are uninterpreted",
         "assumptions": COMMON_ASSUME + ["text/scanner, strconv, strings, bytes, utf8 are interpreted from the toolchain's source"],
@@ -292,7 +298,7 @@ CHECKS = {
             {"entry": CC + ".HarnessC19InverseThorough", "pkgs": LIBS, "tiers": ["thorough"], "must_reach": ["c19-inverse-end"]},
             {"entry": CC + ".HarnessC19GoIdentThorough", "pkgs": LIBS + ["go/token"], "tiers": ["thorough"], "must_reach": ["c19-goident-end"]},
         ],
-        "bounds": {"quick": "word lists: W<=3, |w|<=3, total<=5 bytes; identifiers: <=2 parts, words [A-Z][a-z]{1,2}",
+        "bounds": {"quick": "word lists: W<=3, |w|<=3, total<=5 bytes; identifiers: <=2 parts, words [A-Z][a-z]{1,2}; single-part identifiers decoded twice with the first result overwritten in between",
                    "thorough": "word lists: W<=3, |w|<=4, total<=8 bytes; identifiers: <=3 parts, words [A-Z][a-z]{1,3}"},
         "outside": "longer words/lists; non-ASCII letters (unicode predicates above U+00FF are uninterpreted); x/text cases.Title replaced by its ASCII contract",
         "assumptions": COMMON_ASSUME + [
@@ -314,8 +320,8 @@ CHECKS = {
             {"entry": M + "/sourcewrap.HarnessC20BlankContexts", "pkgs": SW, "must_reach": ["c20-blank-ctx-end", "c20-blank-late-end"], "instrument": [M, M + "/sourcewrap"], "validate": 0},
             {"entry": M + "/sourcewrap.HarnessC20Slices", "pkgs": SW + ["github.com/fatih/structtag"], "must_reach": ["c20-slices-end"], "instrument": [M, M + "/sourcewrap"], "validate": 0},
         ],
-        "bounds": {"quick": "1 wrapped source, 3 updates, all int64 values; Blank: 3 operations", "thorough": "same"},
-        "outside": "other mangler lists on the watch path; transforming decoders (C10/C14)",
+        "bounds": {"quick": "1 wrapped source (value- or pointer-returning), 3 updates, all int64 values; a decoder shared by 2 config types; Blank: 3 operations, SetSource contexts, SetSource after Done; slices of structs unset/empty/1 element initially and on update through a recursing mangler", "thorough": "same"},
+        "outside": "other mangler lists on the watch path",
         "assumptions": CONC_ASSUME,
     },
 }
